@@ -32,7 +32,7 @@ def run(ctx):
     for r in bad:
         mod, lst, gen, _ = trav.TRAVS[r["trav"]]
         fn = f"{mod}.{gen}"
-        res.violation("REACH-" + r["kind"].upper(), fn, f"universe={'subclass-overriding-vertices' if r.get('hidden') else ('given' if r['universe'] else 'None')},ff_result={r['ff_result'] if r['kind'] == 'ff_result' else 'any'}",
+        res.violation("REACH-" + r["kind"].upper(), fn, f"universe={'subclass-overriding-vertices' if r.get('hidden') else (('given-of-a-class-whose-truth-value-is-False' if r.get('falsy_uni') else 'given') if r['universe'] else 'None')},ff_result={r['ff_result'] if r['kind'] == 'ff_result' else 'any'}",
                       f"{r['trav']} ({r['form']} form) on neighbour map {r['map']} universe {r['universe']} ff_result={r['ff_result']} settings={r['settings']}: {KINDS[r['kind']]}; "
                       f"derived {r['got']}, reachable {r.get('reach')}, expected listing {r.get('want')}", replay=trav.replay_map(r))
     res.rule("REACH-SWEEP", n)
